@@ -305,8 +305,10 @@ class World:
     def copy_input(self, tx, v, sb, same):
         """mirror of XoHeap!AsCopyInput (used only to register handles of duplicated referents)"""
         k = tx["k"]
-        if k in ("sc", "str"):
+        if k == "sc":
             return v
+        if k == "str":      # how much room the copy's box has is the implementation's choice unless the source box is exact
+            return v if not X.has_slack(tx, v) else X.strval(v, None)
         if k == "struct":
             return [self.copy_input(f, v[i], sb, same) for i, f in enumerate(tx["f"])]
         if k == "arr":
@@ -362,7 +364,7 @@ class World:
         try:
             h = cls(*args, **kwargs, **kw)
         except Exception as ex:             # noqa
-            exc = type(ex).__name__ + ":" + str(ex)[:80]
+            exc = type(ex).__name__ + ":" + str(ex)[-160:]
             if C.os.environ.get("VERIF_DEBUG"):
                 import traceback
                 traceback.print_exc()
@@ -418,7 +420,7 @@ class World:
             # stop here?
             nk = ntx["k"]
             stop = nk in ("sc", "str") or (nk in ("ref", "uref") and (nv["null"] or rng.random() < 0.5)) or \
-                (nk in ("struct", "arr") and rng.random() < (0.25 if want != "leaf" else 0.0))
+                (nk in ("struct", "arr") and rng.random() < (0.25 if want != "leaf" else 0.0) and not X.has_slack(ntx, nv))
             if nk == "arr" and len(nv["it"]) == 0:
                 stop = True
             if nk == "struct" and not ntx["f"]:
@@ -468,7 +470,7 @@ class World:
                 idx = tuple(last[1])
                 parent[idx[0] if len(idx) == 1 and rng.random() < 0.5 else idx] = py
         except Exception as ex:          # noqa: a fitting assignment that raises is reported by TLC as set:raised
-            exc = type(ex).__name__ + ":" + str(ex)[:80]
+            exc = type(ex).__name__ + ":" + str(ex)[-160:]
         self.prog.append(f"set {key} {path} via {route} form={_form(py)} {exc}")
         ok = True
         if not exc:
@@ -603,7 +605,10 @@ class World:
                 if not c:
                     continue
                 acc, last, etx, cur = rng.choice(c)
-                cap = (len(cur) + 1 + 7) // 8 * 8          # bytes available for text + NUL in the box created for cur
+                slot = getattr(cur, "slot", X.natural_slot(len(cur)))
+                if slot is None:
+                    continue                                # capacity of this box is not known to the harness
+                cap = slot * 8                              # bytes available for text + NUL in the box
                 text = rng.choice(["x", "é", "ab"]) * (cap + rng.choice([0, 1, 8, 20]))
                 text = text[: max(cap, 1) + rng.choice([0, 3, 9])] if len(text.encode()) > cap + 40 else text
                 if len(text.encode()) + 1 <= cap:
@@ -615,7 +620,7 @@ class World:
                 break
             if kind == "item-too-large":
                 c = [(acc, last, etx, cur) for acc, last, etx, cur in elems if last[0] == "i" and etx["k"] in ("struct", "arr") and not X.is_static(etx)
-                     and not X.has_refs(etx)]
+                     and not X.has_refs(etx) and not _unknown_cap(etx, cur)]
                 if not c:
                     continue
                 acc, last, etx, cur = rng.choice(c)
@@ -682,7 +687,7 @@ class World:
             else:
                 h = cls(src, _buffer=self.bufs[db])
         except Exception as ex:          # noqa
-            exc = type(ex).__name__ + ":" + str(ex)[:80]
+            exc = type(ex).__name__ + ":" + str(ex)[-160:]
         self.prog.append(f"copy {key} -> b={db} {None if h is None else h._offset} {exc}")
         if h is None:
             self.record("copy", src=[key[0] + 1, key[1]], b=db + 1, a=-1, size=-1, exc=exc)
@@ -720,7 +725,7 @@ class World:
         try:
             h = H(**py, _buffer=self.bufs[b])
         except Exception as ex:         # noqa
-            exc = type(ex).__name__ + ":" + str(ex)[:80]
+            exc = type(ex).__name__ + ":" + str(ex)[-160:]
         self.prog.append(f"new hybrid {X.key(tx)[:60]} b={b} -> {None if h is None else h._offset} {exc}")
         if h is None:
             self.record("rejected", reads=False, exc=exc, what="new", form="hybrid")
@@ -743,7 +748,7 @@ class World:
         try:
             twins = pickle.loads(pickle.dumps(tuple(objs)))
         except Exception as ex:         # noqa
-            exc = type(ex).__name__ + ":" + str(ex)[:80]
+            exc = type(ex).__name__ + ":" + str(ex)[-160:]
         self.prog.append(f"pickle {keys} {exc}")
         if twins is None:
             self.record("pickle", group=[], exc=exc, reads=False)
@@ -845,7 +850,7 @@ def _size_of(tx, v):
     if k == "sc":
         return tx["w"]
     if k == "str":
-        return 8 + (len(v) + 1 + 7) // 8 * 8
+        return 8 + 8 * (getattr(v, "slot", None) or X.natural_slot(len(v)))
     if k == "ref":
         return 8
     if k == "uref":
@@ -875,3 +880,14 @@ def _ref_ats(tx, v):
     if k == "arr":
         return [a for w in v["it"] for a in _ref_ats(tx["it"], w)]
     return [] if v["null"] else [v["at"]]
+
+
+def _unknown_cap(tx, v):
+    k = tx["k"]
+    if k == "str":
+        return getattr(v, "slot", 0) is None
+    if k == "struct":
+        return any(_unknown_cap(f, w) for f, w in zip(tx["f"], v))
+    if k == "arr":
+        return any(_unknown_cap(tx["it"], w) for w in v["it"])
+    return False
